@@ -460,7 +460,13 @@ func (e *Exec) check(extra *Term, prop bool) (SatResult, Model) {
 			m[k] = v
 		}
 		// independent small variables keep a value from their domain
-		if Eval(extra, m) != 1 {
+		hasArr := false
+		for _, v := range want {
+			if v.Op == OpArrVar {
+				hasArr = true // array contents are not part of the scalar model; the check below cannot be made
+			}
+		}
+		if !hasArr && Eval(extra, m) != 1 {
 			// the solver's model did not mention a variable we assumed 0 for: trust solver values only
 			e.incomplete("model evaluation mismatch")
 		}
